@@ -452,3 +452,116 @@ func ruleR11f(c *Ctx) {
 	}
 	c.floor("R11f", "PlaceholderPart arms in the two backends", 2, n)
 }
+
+// R11g: plural forms are selected by the catalogue's own rule applied to the number itself. The selector
+// stored in the bundle is the one read from the PO file (or the library's default for the language), not
+// something derived from it, and PluralCase hands its argument to it unchanged. (Plural rules are not
+// periodic in general: "n != 1" differs at 101.)
+func ruleR11g(c *Ctx) {
+	p := c.pkg("soymsg/pomsg")
+	if p == nil {
+		return
+	}
+	info := p.TypesInfo
+	nb := c.mustFunc("soymsg/pomsg", "newBundle")
+	pc := c.mustFunc("soymsg/pomsg", "bundle.PluralCase")
+	if nb == nil || pc == nil {
+		return
+	}
+	// (1) the selector element of the bundle literal
+	n := 0
+	ast.Inspect(nb.Body, func(x ast.Node) bool {
+		cl, ok := x.(*ast.CompositeLit)
+		if !ok {
+			return true
+		}
+		tv, ok := info.Types[cl]
+		if !ok {
+			return true
+		}
+		if _, tn, ok := relPkgOfType(tv.Type); !ok || tn != "bundle" {
+			return true
+		}
+		for _, el := range cl.Elts {
+			v := el
+			if kv, ok := el.(*ast.KeyValueExpr); ok {
+				v = kv.Value
+			}
+			etv, ok := info.Types[v]
+			if !ok {
+				continue
+			}
+			if _, isFunc := etv.Type.Underlying().(*types.Signature); !isFunc {
+				continue
+			}
+			n++
+			id, isID := ast.Unparen(v).(*ast.Ident)
+			good := isID
+			why := exprKey(v)
+			if isID {
+				obj := info.Uses[id]
+				ast.Inspect(nb.Body, func(y ast.Node) bool {
+					var lhs, rhs []ast.Expr
+					switch s := y.(type) {
+					case *ast.AssignStmt:
+						lhs, rhs = s.Lhs, s.Rhs
+					case *ast.ValueSpec:
+						for _, nm := range s.Names {
+							lhs = append(lhs, nm)
+						}
+						rhs = s.Values
+					default:
+						return true
+					}
+					if len(lhs) != len(rhs) {
+						return true
+					}
+					for i, l := range lhs {
+						li, ok := l.(*ast.Ident)
+						if !ok || (info.Defs[li] != obj && info.Uses[li] != obj) {
+							continue
+						}
+						r := ast.Unparen(rhs[i])
+						switch e := r.(type) {
+						case *ast.SelectorExpr: // file.Pluralize
+							if fieldOf(e, info) == nil {
+								good, why = false, exprKey(r)
+							}
+						case *ast.CallExpr:
+							if cal := calleeFunc(e, info); cal == nil || cal.Pkg() == nil || cal.Pkg() == p.Types {
+								good, why = false, exprKey(r)
+							}
+						default:
+							good, why = false, exprKey(r)
+						}
+					}
+					return true
+				})
+			}
+			c.check(good, "R11g", "soymsg/pomsg.newBundle plural-selector", cl.Pos(), "the bundle keeps the catalogue's own plural rule",
+				"the bundle's plural selector is "+why+", not the rule read from the catalogue: whatever it derives from the rule (a table, a cache) stands in for it on every number")
+		}
+		return true
+	})
+	c.floor("R11g", "plural selectors stored in the bundle", 1, n)
+	// (2) PluralCase applies it to its own argument
+	var param types.Object
+	for _, fl := range pc.Type.Params.List {
+		for _, nm := range fl.Names {
+			param = info.Defs[nm]
+		}
+	}
+	direct := false
+	ast.Inspect(pc.Body, func(x ast.Node) bool {
+		if r, ok := x.(*ast.ReturnStmt); ok && len(r.Results) == 1 {
+			if call, ok := ast.Unparen(r.Results[0]).(*ast.CallExpr); ok && len(call.Args) == 1 {
+				if id, ok := ast.Unparen(call.Args[0]).(*ast.Ident); ok && info.Uses[id] == param && fieldOf(call.Fun, info) != nil {
+					direct = true
+				}
+			}
+		}
+		return true
+	})
+	c.check(direct, "R11g", "soymsg/pomsg.bundle.PluralCase applies-rule-to-argument", pc.Pos(), "returns the rule applied to the number itself",
+		"PluralCase does not simply return the catalogue's rule applied to its argument")
+}
